@@ -112,7 +112,12 @@ class Ctx(object):
               "violations": len(self.violations)}
         if self.machinery_errors:
             ev["machinery_errors"] = self.machinery_errors[:20]
-        with open(os.path.join(VERIF, "evidence", self.prop + ".json"), "w") as f:
+        evdir = os.path.join(VERIF, "evidence")
+        if os.path.realpath(REPO) != "/repo":
+            # a run against a scratch copy of the repository (mutant testing) must not overwrite the committed evidence
+            evdir = os.path.join("/tmp", "ptv-evidence-scratch")
+            os.makedirs(evdir, exist_ok=True)
+        with open(os.path.join(evdir, self.prop + ".json"), "w") as f:
             json.dump(ev, f, indent=1, default=str)
         if self.machinery_errors:
             print("MACHINERY-FAILURE property=%s %s" % (self.prop, self.machinery_errors[0][:300]))
